@@ -11,7 +11,7 @@
 Reads source text only.  Recognised subset of an equation method body:
   docstring | `from .sym import tausym` | `u = tausym`
   | `<arg> = expr(<arg>).subs(t, u)`          (renaming of the integration variable; value preserving)
-  | if/elif `kind in (<strings>)` : <body> ... | return <E> | pass
+  | if/elif `kind in (<strings>)` : <body> ... | return <E> | pass | `if kind == 's': kind = 'laplace'`
   E ::= Superposition{Current,Voltage}(E).select(kind)   (wrapper, erased)
       | Superposition{Voltage,Current}(<arg>).select(kind) -> the applied signal
       | E + E | E - E | E * P | P * E | E / P | -E | expr(self.i0|self.v0) (a constant of time)
@@ -82,6 +82,9 @@ class FormulTranslator:
         t = src(e)
         if t in PARAMS:
             return '(%s)' % PARAMS[t]
+        if isinstance(e, ast.UnaryOp) and isinstance(e.op, ast.USub):
+            x = self.param(e.operand)
+            return None if x is None else '(- %s)' % x
         if isinstance(e, ast.BinOp) and isinstance(e.op, (ast.Mult, ast.Div)):
             l, r = self.param(e.left), self.param(e.right)
             if l is None or r is None:
@@ -167,6 +170,10 @@ class FormulTranslator:
                 continue
             if isinstance(st, ast.Return):
                 return self.lower(st.value, arg, tdom, intvar)
+            if t == "if kind == 's':\n    kind = 'laplace'":
+                # both names denote the Laplace-domain branch of every relation (they always occur together in
+                # the kind tuples); only the value selected from a source changes, and that is an observed input
+                continue
             if isinstance(st, ast.If):
                 test = st.test
                 rest = stmts[i:]
@@ -297,7 +304,7 @@ class FormulTranslator:
         if not (isinstance(il, ast.For) and src(il.target) == 'elt' and src(il.iter) == 'self.cg.connected_cpts(node)' and not il.orelse):
             self.fail(il, 'expected the loop over connected components')
         ib = il.body
-        if len(ib) < 5:
+        if len(ib) < 4:
             self.fail(il, 'unexpected KCL loop body')
         expect(ib[0], "if len(elt.node_names) < 2:\n    raise ValueError('Elt %s has too few nodes' % elt)")
         expect(ib[1], 'n1 = self.cg.node_map[elt.node_names[0]]')
@@ -306,10 +313,13 @@ class FormulTranslator:
         if not (isinstance(orient, ast.If) and src(orient.test) == 'node == n1' and len(orient.orelse) == 1 and isinstance(orient.orelse[0], ast.If)
                 and src(orient.orelse[0].test) == 'node == n2' and len(orient.orelse[0].orelse) == 1 and isinstance(orient.orelse[0].orelse[0], ast.Raise)):
             self.fail(orient, 'unsupported orientation test')
+        # symbolic execution of either branch followed by the common tail:
+        #   pass | n1, n2 = n2, n1 | sign = +-1 | v = <difference of unknowns> | result +=/-= <term>
         contribs = []
-        for branch, first in ((orient.body, True), (orient.orelse[0].body, False)):
-            env = {'n1': 'a', 'n2': 'b', 'sign': None}
-            for s2 in branch:
+        for branch in (orient.body, orient.orelse[0].body):
+            env = {'n1': 'a', 'n2': 'b', 'sign': None, 'v': None}
+            total = []
+            for s2 in list(branch) + list(ib[4:]):
                 t2 = src(s2)
                 if t2 == 'pass':
                     continue
@@ -319,41 +329,57 @@ class FormulTranslator:
                 if t2 in ('sign = 1', 'sign = -1'):
                     env['sign'] = 1 if t2 == 'sign = 1' else -1
                     continue
-                self.fail(s2, 'unsupported statement in orientation branch')
-            # accumulate statements after the orientation block
-            total = []
-            for s2 in ib[4:]:
-                if not (isinstance(s2, ast.AugAssign) and src(s2.target) == 'result' and isinstance(s2.op, (ast.Add, ast.Sub))):
-                    self.fail(s2, 'unsupported statement after the orientation block')
-                coef, call = self.nodal_term(s2.value, env)
-                if isinstance(s2.op, ast.Sub):
-                    coef = -coef
-                total.append((coef, call))
+                if isinstance(s2, ast.Assign) and src(s2.targets[0]) == 'v':
+                    env['v'] = self.nodal_arg(s2.value, env, allow_v=False)
+                    continue
+                if isinstance(s2, ast.AugAssign) and src(s2.target) == 'result' and isinstance(s2.op, (ast.Add, ast.Sub)):
+                    coef, arg = self.nodal_term(s2.value, env)
+                    if isinstance(s2.op, ast.Sub):
+                        coef = -coef
+                    total.append((coef, arg))
+                    continue
+                self.fail(s2, 'unsupported statement in the KCL loop')
             contribs.append(total)
 
         def emit(total):
             parts = []
-            for coef, (x, y) in total:
-                term = 'ceq (v%s - v%s) (v%s0 - v%s0)' % (x, y, x, y)
+            for coef, (ac, x, y) in total:
+                d = 'v%s - v%s' % (x, y)
+                d0 = 'v%s0 - v%s0' % (x, y)
+                term = 'ceq (%s) (%s)' % (d, d0) if ac > 0 else 'ceq (- (%s)) (- (%s))' % (d, d0)
                 parts.append(('- ' if coef < 0 else '') + term)
             return ' + '.join('(%s)' % p for p in parts) if parts else '0'
         self.nodal = {'line': fn.lineno, 'vsrc': vs, 'first': emit(contribs[0]), 'second': emit(contribs[1])}
 
-    def nodal_term(self, e, env):
+    def nodal_arg(self, e, env, allow_v=True):
+        """difference of two unknowns (possibly negated / bound to v) -> (coef, X, Y) meaning coef * (vX - vY)"""
         if isinstance(e, ast.UnaryOp) and isinstance(e.op, ast.USub):
-            c, call = self.nodal_term(e.operand, env)
-            return -c, call
+            c, x, y = self.nodal_arg(e.operand, env, allow_v)
+            return -c, x, y
+        if isinstance(e, ast.Name) and e.id == 'v' and allow_v:
+            if env['v'] is None:
+                self.fail(e, 'v used before assignment')
+            return env['v']
+        if isinstance(e, ast.BinOp) and isinstance(e.op, ast.Sub):
+            l, r = src(e.left), src(e.right)
+            m = {'self._unknowns[n1]': env['n1'], 'self._unknowns[n2]': env['n2']}
+            if l in m and r in m and l != r:
+                return 1, m[l], m[r]
+        self.fail(e, 'unsupported argument of current_equation')
+
+    def nodal_term(self, e, env):
+        """[sign *] [-] elt.cpt.current_equation(<arg>, self.kind) -> (outer coefficient, arg)"""
+        if isinstance(e, ast.UnaryOp) and isinstance(e.op, ast.USub):
+            c, arg = self.nodal_term(e.operand, env)
+            return -c, arg
         if isinstance(e, ast.BinOp) and isinstance(e.op, ast.Mult) and src(e.left) == 'sign':
             if env['sign'] is None:
                 self.fail(e, 'sign used before assignment')
-            c, call = self.nodal_term(e.right, env)
-            return c * env['sign'], call
+            c, arg = self.nodal_term(e.right, env)
+            return c * env['sign'], arg
         if (isinstance(e, ast.Call) and src(e.func) == 'elt.cpt.current_equation' and len(e.args) == 2 and src(e.args[1]) == 'self.kind'
-                and isinstance(e.args[0], ast.BinOp) and isinstance(e.args[0].op, ast.Sub)):
-            l, r = src(e.args[0].left), src(e.args[0].right)
-            m = {'self._unknowns[n1]': env['n1'], 'self._unknowns[n2]': env['n2']}
-            if l in m and r in m and l != r:
-                return 1, (m[l], m[r])
+                and not e.keywords):
+            return 1, self.nodal_arg(e.args[0], env)
         self.fail(e, 'unsupported KCL term')
 
     # ---- loop analysis ---------------------------------------------------------------
@@ -500,8 +526,11 @@ class FormulTranslator:
                 self.fail(b[0], 'unsupported substitution model')
         for cn in ('V', 'I'):
             fn = [n for n in cl[cn].body if isinstance(n, ast.FunctionDef) and n.name == '_ss_model'] if cn in cl else []
-            want = 'return self._netmake(args=self.cpt.%s, ignore_keyword=True)' % ('voc' if cn == 'V' else 'isc')
-            if not fn or [src(x) for x in fn[0].body if not is_doc(x)] != [want]:
+            # the source stays a source of the same kind and orientation; its value is either the value itself or a
+            # symbol named after the source (the input u_j of the state-space model in both cases)
+            want = ['return self._netmake(args=self.cpt.%s, ignore_keyword=True)' % ('voc' if cn == 'V' else 'isc'),
+                    "return self._netmake(args='%s_%%s(t)' %% self.relname, ignore_keyword=True)" % ('v' if cn == 'V' else 'i')]
+            if not fn or len([x for x in fn[0].body if not is_doc(x)]) != 1 or src([x for x in fn[0].body if not is_doc(x)][0]) not in want:
                 raise Untranslatable('lcapy/mnacpts.py: unexpected %s._ss_model' % cn)
         base = [n for n in cl['Cpt'].body if isinstance(n, ast.FunctionDef) and n.name == '_ss_model'] if 'Cpt' in cl else []
         if not base or [src(x) for x in base[0].body if not is_doc(x)] != ['return self._copy()']:
